@@ -484,6 +484,52 @@ def encVal (q : Quirks) (o : Opts) (plan : List (FieldHdr × GoType) → List Fi
 def encode (e : Enc) (d : Dev) (o : Opts) (tf vf : Nat) (t : GoType) (v : GoVal) : JV :=
   encVal (quirksOf e d o) o (planOf e d o tf) vf true false t v
 
+/-! ## runs of the unchanged code that hit none of the listed deviations -/
+
+def tagHasOmit (tag : Bytes) : Bool :=
+  if tag.isEmpty then false
+  else
+    match parseTag tag with
+    | none => false
+    | some r => r.2.1
+
+/-- no `json` tag of the fields says `omitempty`, embedded structs included (what the leak needs) -/
+def noOmitTag : Nat → List (FieldHdr × GoType) → Bool
+  | 0, _ => true
+  | tf + 1, fs => fs.all fun ht => !tagHasOmit ht.1.tag && (!ht.1.embedded || noOmitTag tf (embFields ht.2))
+
+def isIface : GoType → Bool
+  | .iface => true
+  | _ => false
+
+/-- The run of encoder `e` on `(t, v)` meets none of the triggers of the deviations switched on in
+`d` (the named predicate the partial theorem excludes): an `omitempty` tag in a struct type written in
+tag mode (`leak`), `UseTags` without `KeyExact` (`tagExact`), a `[]byte` outside the `appendJSON` type
+switch (`bytesAsSlice`), a nil embedded pointer on the way to a field (`embNilPanic`), a nil pointer
+element under the tight writer (`tightNilDeref`), a nil container as a map value (`mapNilNull`).
+`plan` is the repaired plan. -/
+def untriggered (e : Enc) (d : Dev) (o : Opts) (tf : Nat) (plan : List (FieldHdr × GoType) → List Finfo) :
+    Nat → Bool → Bool → GoType → GoVal → Bool
+  | 0, _, _, _, _ => true
+  | vf + 1, viaIface, inElem, t, v =>
+    match t, v with
+    | .bytes, _ => !((quirksOf e d o).bytesNum && !viaIface)
+    | .iface, .iface dt dv => untriggered e d o tf plan vf true false dt dv
+    | .ptr _, .nilPtr => !(inElem && (quirksOf e d o).elemNilPanic)
+    | .ptr t', .ptr x => untriggered e d o tf plan vf false false t' x
+    | .slice t', .slice xs => xs.all (untriggered e d o tf plan vf false true t')
+    | .array _ t', .arr xs => xs.all (untriggered e d o tf plan vf false true t')
+    | .map t', .map kvs =>
+      kvs.all fun kv => !((quirksOf e d o).mapNilNull && isNilContainer kv.2) && untriggered e d o tf plan vf false true t' kv.2
+    | .struct _ _ fs, .struct vs =>
+      (!d.leak || !o.useTags || e == .alt || noOmitTag tf fs) &&
+      (!d.tagExact || !o.useTags || o.keyExact) &&
+      (plan fs).all fun fi =>
+        match fieldByIndex (.struct vs) fi.index with
+        | none => !(quirksOf e d o).embNilPanic
+        | some x => untriggered e d o tf plan vf (isIface fi.ty) false fi.ty x
+    | _, _ => true
+
 /-! ## the reference: what the option documentation prescribes
 
 Formalisation choices (where `/repo/options.go` is silent the reading the code implements
